@@ -125,7 +125,10 @@ claim("C05",
       "three processors coincide on every entry); C05_check_verdict (for every tree with an in-scope file, an "
       "uninterrupted non-panicking check reports exactly, file by file and in order, the line/column of the entries "
       "lacking a reference, totals their number, and exits non-zero iff there is one); C05_edit_count_is_exact "
-      "(the number an edit run prints is the number of IDs it wrote). The same filter selects what check reports "
+      "(the number an edit run prints is the number of IDs it wrote); C05_canonical_check (composition with the parser "
+      "specification theorem and C17: on a tree of canonical files --check reports exactly the line/column `expected` "
+      "computes from each file's TEXT for the statements lacking a reference, and exits non-zero iff there is one; no "
+      "panic hypothesis, no parse tree). The same filter selects what check reports "
       "and what edit rewrites (C03/C08). Tie: check and edit runs of the real binary on the same trees, the "
       "reported line/column converted to byte offsets independently (characters, CRLF, lone CR, tabs, multi-byte) "
       "and compared with the insertion offsets of the edit diff; both runs compared with the model.",
@@ -262,7 +265,8 @@ claim("C13",
       "FROM THE TEXT (Proofs/ArgLemmas.v: rule lemmas for rust_identifier, kvp_key, kvp_value, kvp_args, target_arg, "
       "macro_args in their non-atomic context, against the generated grammar; Proofs/FileSpec.v): C13_canonical_files -- "
       "on every file of the canonical file language, whose statements may carry `target: \"t\",` and any number of "
-      "key-values (identifier keys; digit-run / identifier / string-literal values) with any layout between all tokens, "
+      "key-values (identifier keys, optional `:` modifier; values = a digit run, identifier or string literal followed by "
+      "any further characters other than `,` `;` and by string literals -- `u.name`, `x + 1` --) with any layout between all tokens, "
       "the finder returns exactly `expected`; C13_structured_statement spells it out (entry AT the value of the first "
       "`ref` key-value with a value, its trimmed text read as u32; else insertion after the target / the bracket with "
       "`, ` / `; `); C13_message_style_statement; C13_ref_key; C13_pieces. Tie: "
